@@ -386,42 +386,67 @@ fn thread_sample(os: i32) -> Option<(char, String, u64)> {
 /// mode, so no server thread is held back by the monitor. The verdict does not rest on elapsed time: the main loop
 /// must be inside a handler, every live snapshot task must have a started thread, and each of these threads must be
 /// asleep in a futex wait, in the same wait (no context switch in between) at two samples - i.e. every thread that
-/// could release what the others wait for is itself blocked. Anything else is no certificate (None).
+/// could release what the others wait for is itself blocked; and every other thread of the process (runtime workers,
+/// helper threads of any kind) is asleep in an unchanged wait too, so nothing anywhere is running on the server's
+/// behalf. With no live task at all this is the main loop waiting for something only it could release.
+/// Anything else is no certificate (None).
 fn stall_certificate() -> Option<String> {
+    match stall_certificate_why() {
+        Ok(c) => Some(c),
+        Err(why) => {
+            *LAST_NO_CERT.lock().unwrap_or_else(|p| p.into_inner()) = why;
+            None
+        }
+    }
+}
+static LAST_NO_CERT: Mutex<String> = Mutex::new(String::new());
+fn stall_certificate_why() -> Result<String, String> {
     std::thread::sleep(Duration::from_millis(300));
-    let threads: Vec<(String, i32)> = {
+    let me = unsafe { libc::syscall(libc::SYS_gettid) as i32 };
+    let (main_os, named): (i32, BTreeMap<i32, String>) = {
         let st = sched().st.lock().unwrap_or_else(|p| p.into_inner());
         if !st.in_handler {
-            return None;
+            return Err("the main loop is not inside a handler".into());
         }
-        let mut v = Vec::new();
-        let m = st.main?;
-        v.push(("main".to_string(), *st.os_tid.get(&m)?));
-        if st.model.live.is_empty() {
-            return None;
-        }
+        let m = st.main.ok_or("main loop thread unknown")?;
+        let mut named = BTreeMap::new();
+        named.insert(*st.os_tid.get(&m).ok_or("no os tid for main")?, "main".to_string());
         for task in st.model.live.keys() {
-            let th = st.task_of.iter().find(|(_, t)| *t == task).map(|(th, _)| *th)?; // not started: no certificate
-            v.push((st.label(th), *st.os_tid.get(&th)?));
+            let th = st.task_of.iter().find(|(_, t)| *t == task).map(|(th, _)| *th).ok_or("a live task has not started")?;
+            named.insert(*st.os_tid.get(&th).ok_or("no os tid for a task thread")?, st.label(th));
         }
-        v
+        (*st.os_tid.get(&m).ok_or("no os tid for main")?, named)
     };
-    let a: Vec<_> = threads.iter().map(|(_, os)| thread_sample(*os)).collect();
+    // every thread of this process except the sampler: server threads, runtime workers, helper threads of any kind
+    let all: Vec<i32> = std::fs::read_dir("/proc/self/task").map_err(|e| e.to_string())?.flatten().filter_map(|e| e.file_name().to_string_lossy().parse::<i32>().ok()).filter(|t| *t != me && *t != std::process::id() as i32).collect(); // (the process' main thread is the harness' unit runner, polling for the unit's end)
+    let a: Vec<_> = all.iter().map(|os| thread_sample(*os)).collect();
     std::thread::sleep(Duration::from_millis(700));
-    let b: Vec<_> = threads.iter().map(|(_, os)| thread_sample(*os)).collect();
+    let b: Vec<_> = all.iter().map(|os| thread_sample(*os)).collect();
     let mut desc = Vec::new();
-    for (i, (name, _)) in threads.iter().enumerate() {
+    let mut idle_others = 0;
+    for (i, os) in all.iter().enumerate() {
         match (&a[i], &b[i]) {
-            (Some(x), Some(y)) if x == y && x.0 == 'S' && x.1 == libc::SYS_futex.to_string() => desc.push(format!("{} asleep in futex wait", name)),
-            _ => return None,
+            (Some(x), Some(y)) if x == y && x.0 == 'S' => {
+                let futex = x.1 == libc::SYS_futex.to_string();
+                match named.get(os) {
+                    Some(name) if futex => desc.push(format!("{} asleep in futex wait", name)),
+                    Some(name) => return Err(format!("{} waits in system call {} (not a futex wait)", name, x.1)),
+                    None => idle_others += 1,
+                }
+            }
+            other => return Err(format!("thread {} ({}) is not in an unchanged sleep: {:?}", os, named.get(os).cloned().unwrap_or_else(|| std::fs::read_to_string(format!("/proc/self/task/{}/comm", os)).unwrap_or_default().trim().to_string()), other)),
         }
+    }
+    if !named.keys().all(|os| all.contains(os)) || !all.contains(&main_os) {
+        return Err("a server thread is gone".into());
     }
     // the picture must still be the same set of live tasks
     let st = sched().st.lock().unwrap_or_else(|p| p.into_inner());
-    if !st.in_handler || st.model.live.len() + 1 != threads.len() {
-        return None;
+    if !st.in_handler || st.model.live.len() + 1 != named.len() {
+        return Err("the set of live tasks changed while sampling".into());
     }
-    Some(desc.join(", "))
+    desc.sort();
+    Ok(format!("{}; the {} other threads of the process are idle", desc.join(", "), idle_others))
 }
 const STALL: &str = "every live server thread is blocked outside the hooked acquisition points";
 
@@ -527,7 +552,11 @@ fn run_schedule(handler: Handler, tasks: &[TaskKind], prefix: &[usize]) -> Run {
     }
     let mut decisions = Vec::new();
     if !sess.quiesce(SETTLE_WATCHDOG) {
-        let r = Run { decisions, outcome: Outcome::Watchdog("setup did not quiesce".into()), trace: vec![] };
+        let o = match stall_certificate() {
+            Some(c) => Outcome::Deadlock(STALL.into(), format!("while the scenario's documents were being opened (no task of the scenario in flight yet): {}", c)),
+            None => Outcome::Watchdog("setup did not quiesce".into()),
+        };
+        let r = Run { decisions, outcome: o, trace: vec![] };
         sess.abandon();
         return r;
     }
@@ -704,7 +733,7 @@ fn explore(handler: Handler, tasks: &[TaskKind], ctx: &mut Ctx, max_schedules: u
             }
             Outcome::Watchdog(m) => {
                 ctx.feature("watchdog");
-                ctx.note(format!("watchdog (no verdict): {}", m));
+                ctx.note(format!("watchdog (no verdict): {}; no stall certificate because {}", m, LAST_NO_CERT.lock().unwrap_or_else(|p| p.into_inner())));
                 return;
             }
         }
@@ -833,7 +862,7 @@ fn stress(unit: u64, ctx: &mut Ctx) {
                     ),
                     None => {
                         ctx.feature("watchdog");
-                        ctx.note(format!("stress session stalled without a wait-for cycle at the hooked points (no verdict); waiting: {:?}", waiting));
+                        ctx.note(format!("stress session stalled without a wait-for cycle at the hooked points (no verdict); waiting: {:?}; no stall certificate because {}", waiting, LAST_NO_CERT.lock().unwrap_or_else(|p| p.into_inner())));
                     }
                 }
             }
